@@ -838,6 +838,13 @@ func revocationFinalResult(certResults []*revocationresult.CertRevocationResult,
 	finalResult := revocationresult.ResultUnknown
 	numOKResults := 0
 	var problematicCertSubject string
+	if len(certResults) != len(certChain) {
+		// every certificate in the chain needs a revocation result
+		if len(certChain) > 0 {
+			problematicCertSubject = certChain[0].Subject.String()
+		}
+		return revocationresult.ResultUnknown, problematicCertSubject
+	}
 	revokedFound := false
 	var revokedCertSubject string
 	for i := len(certResults) - 1; i >= 0; i-- {
